@@ -71,7 +71,10 @@ InvLifecycle ==
     \A i \in Instances :
         /\ \A n \in 1..Len(StoredOf(i)) :
               StoredOf(i)[n].dgc <= inst[i].dgc /\ StoredOf(i)[n].nwgc <= inst[i].nwgc
-        /\ inst[i].is = "NO_WRITERS" => inst[i].writers = {}
+        \* (inst[i].writers also holds writers heard of through filtered / rejected changes, see HeardOnly)
+        /\ inst[i].is = "NO_WRITERS" => \E n \in 1..Len(Recv) : Recv[n].i = i /\ Recv[n].verdict = "Added" /\ Recv[n].kind = "UNREGISTERED"
+        /\ inst[i].is = "DISPOSED" => \E n \in 1..Len(Recv) : Recv[n].i = i /\ Recv[n].verdict = "Added"
+                                                              /\ Recv[n].kind \in {"DISPOSED", "DISPOSED_UNREGISTERED"}
         /\ ~inst[i].known => StoredOf(i) = <<>>
 
 \* C24: a change was accepted only from the owner, from a stronger writer, or when the
@@ -88,16 +91,18 @@ InvOwnership ==
 \* C25: no two accepted data samples of an instance are closer than MinSep, and a sample at
 \* least MinSep away from every accepted one is accepted.
 InvTimeFilter ==
+    \* C25 speaks about any two presented samples of an instance, so about changes of every kind
     MinSep > 0 =>
         /\ \A n, m \in 1..Len(Recv) :
-              (n < m /\ Recv[n].i = Recv[m].i /\ Recv[n].kind = "ALIVE" /\ Recv[m].kind = "ALIVE"
-               /\ Recv[n].verdict = "Added" /\ Recv[m].verdict = "Added")
+              (n < m /\ Recv[n].i = Recv[m].i /\ Recv[n].verdict = "Added" /\ Recv[m].verdict = "Added")
               => Abs(Recv[n].ts - Recv[m].ts) >= MinSep
         /\ \A m \in 1..Len(Recv) :
-              (Recv[m].kind = "ALIVE" /\ Recv[m].verdict = "NotAdded" /\ ~Exclusive) =>
-                    \E n \in 1..(m - 1) : /\ Recv[n].i = Recv[m].i /\ Recv[n].verdict = "Added"
-                                          /\ Recv[n].kind = "ALIVE"
-                                          /\ Abs(Recv[n].ts - Recv[m].ts) < MinSep
+              (Recv[m].verdict = "NotAdded" /\ ~Exclusive) =>
+                    \/ \E n \in 1..(m - 1) : /\ Recv[n].i = Recv[m].i /\ Recv[n].verdict = "Added"
+                                              /\ Abs(Recv[n].ts - Recv[m].ts) < MinSep
+                    \* a dispose / unregister of an instance the reader does not know
+                    \/ /\ Recv[m].kind # "ALIVE"
+                       /\ ~\E n \in 1..(m - 1) : Recv[n].i = Recv[m].i /\ Recv[n].verdict = "Added"
 
 Inv == TypeOK /\ InvKeepLast /\ InvKeepAll /\ InvLimits /\ InvSourceOrder /\ InvLifecycle
        /\ InvOwnership /\ InvTimeFilter
